@@ -189,4 +189,121 @@ theorem tie_canonicalDep :
         ["if len(dep) > 0 && dep[0] == notSymbol => return string(notSymbol) + canonicalKey(dep[1:])",
          "return canonicalKey(dep)"] := by decide
 
+/-! ### round 2 -/
+
+/-- `parseNumberRange`: the order of the tests, the comparison `left > right`, the equal-bounds rule and the fields of
+the result (`Model.parseNumberRange`) -/
+theorem tie_parseNumberRange :
+    parseNumberRangeStmts =
+      ["if len(str) == 0 => return nil, errNumberRange",
+       "stmt leftInclude, err := isLeftInclude(str[0])",
+       "if err != nil => return nil, err",
+       "stmt str = str[1:]",
+       "if len(str) == 0 => return nil, errNumberRange",
+       "stmt rightInclude, err := isRightInclude(str[len(str)-1])",
+       "if err != nil => return nil, err",
+       "stmt str = str[:len(str)-1]",
+       "stmt fields := strings.Split(str, \":\")",
+       "if len(fields) != 2 => return nil, errNumberRange",
+       "if len(fields[0]) == 0 && len(fields[1]) == 0 => return nil, errNumberRange",
+       "stmt var left float64",
+       "if len(fields[0]) > 0 => ",
+       "stmt var right float64",
+       "if len(fields[1]) > 0 => ",
+       "if left > right => return nil, errNumberRange",
+       "if left == right => if !leftInclude || !rightInclude { return nil, errNumberRange }",
+       "return &numberRange{ left: left, leftInclude: leftInclude, right: right, rightInclude: rightInclude, }, nil"] := by
+  rfl
+
+/-- an omitted bound defaults to ∓MaxFloat64 (`parseBound f0 maxFloat64.neg`, `parseBound f1 maxFloat64`) -/
+theorem tie_parseNumberRangeDefaults :
+    parseNumberRangeDefaults =
+      ["if len(fields[0]) > 0 { var err error; if left, err = strconv.ParseFloat(fields[0], 64); err != nil {…} } else { left = -math.MaxFloat64 }",
+       "if len(fields[1]) > 0 { var err error; if right, err = strconv.ParseFloat(fields[1], 64); err != nil {…} } else { right = math.MaxFloat64 }"] := by
+  rfl
+
+/-- `[` / `]` closed, `(` / `)` open, anything else is an error -/
+theorem tie_rangeBrackets :
+    isLeftIncludeStmts =
+      ["stmt switch b { case '[': return true, nil case '(': return false, nil default: return false, errNumberRange }"]
+    ∧ isRightIncludeStmts =
+      ["stmt switch b { case ']': return true, nil case ')': return false, nil default: return false, errNumberRange }"] := by
+  decide
+
+/-- the kind switch of `processFieldPrimitiveWithJSONNumber` (`jsonNumberPath`): integers through `setValueFromString`,
+floats through `json.Number.Float64`, anything else is a type mismatch -/
+theorem tie_jsonNumberCases :
+    jsonNumberCases =
+      ["case reflect.Int, reflect.Int8, reflect.Int16, reflect.Int32, reflect.Int64, reflect.Uint, reflect.Uint8, reflect.Uint16, reflect.Uint32, reflect.Uint64 => if err := setValueFromString(typeKind, target, v.String()); err != nil { return err }",
+       "case reflect.Float32 => fValue, err := v.Float64()",
+       "case reflect.Float64 => fValue, err := v.Float64()",
+       "default => return newTypeMismatchErrorWithHint(fullName, typeKind.String(), numberTypeString)"] := by rfl
+
+/-- `fillSlice` / `fillMap`: a pointer to a container is filled through its element type and then pointed to (the
+`.ptr` cases of `withValue` / `elemValue` / `mapElemValue`; the pinned commit lacked the pointer branch and panicked);
+`fillSlice` then: non-slice ⇒ mismatch, nil ⇒ untouched, `[]` ⇒ empty slice (`sliceResult`) -/
+theorem tie_fillSlicePrefix :
+    fillSliceShape.take 25 =
+      ["if !value.CanSet() {", "return", "}", "if fieldType.Kind() == reflect.Ptr {", "call Deref", "call u.fillSlice",
+       "if err != nil {", "return", "}", "call SetValue", "return", "}", "if refValue.Kind() != reflect.Slice {", "return",
+       "}", "if refValue.IsNil() {", "return", "}", "call fieldType.Elem", "call Deref", "call dereffedBaseType.Kind",
+       "if refValue.Len() == 0 {", "call value.Set", "return", "}"] := by decide
+
+theorem tie_fillMapShape :
+    fillMapShape =
+      ["if !value.CanSet() {", "return", "}", "if fieldType.Kind() == reflect.Ptr {", "call Deref", "call u.fillMap",
+       "if err != nil {", "return", "}", "call SetValue", "return", "}", "call fieldType.Key", "call fieldType.Elem",
+       "call u.generateMap", "if err != nil {", "return", "}", "if !targetValue.Type().AssignableTo(value.Type()) {",
+       "return", "}", "call value.Set", "return"] := by decide
+
+/-- `fillSliceWithDefault`: the parsed default is cached per element kind and text (the model has no cache: same
+type and text, same result), strings are split with `parseGroupedSegments`, the slice is filled through the field's
+own type (pointer aware) -/
+theorem tie_defaultCache :
+    defaultCacheUse =
+      ["cacheKey := baseFieldKind.String() + \":\" + defaultValue", "slice, ok := defaultCache[cacheKey]",
+       "defaultCache[cacheKey] = slice", "return u.fillSlice(value.Type(), value, slice, fullName)"]
+    ∧ fillSliceWithDefaultShape =
+      ["call derefedType.Elem", "call Deref", "call baseFieldType.Kind", "call baseFieldKind.String",
+       "call defaultCacheLock.Lock", "call defaultCacheLock.Unlock", "if !ok {", "if baseFieldKind == reflect.String {",
+       "call parseGroupedSegments", "}", "else{", "call jsonx.UnmarshalFromString", "if err != nil {", "return", "}", "}",
+       "call defaultCacheLock.Lock", "mapset defaultCache", "call defaultCacheLock.Unlock", "}", "call value.Type",
+       "call u.fillSlice", "return"] := by decide
+
+/-! ### rest/httpx.Parse (`Model.httpParse`) -/
+
+/-- path, form, headers, JSON body in this order, the first error wins -/
+theorem tie_httpParseOrder :
+    httpParseShape.take 20 =
+      ["call mapping.Deref", "call mapping.Deref(reflect.TypeOf(v)).Kind",
+       "if kind != reflect.Array && kind != reflect.Slice {", "call ParsePath", "if err != nil {", "return", "}",
+       "call ParseForm", "if err != nil {", "return", "}", "call ParseHeaders", "if err != nil {", "return", "}", "}",
+       "call ParseJsonBody", "if err != nil {", "return", "}"] := by decide
+
+/-- `GetFormValues`: empty values are skipped, names without a value left are dropped, a trailing `[]` is cut (`formParams`) -/
+theorem tie_getFormValues :
+    arraySuffix = "[]" ∧
+    getFormValuesShape.drop 10 =
+      ["range r.Form {", "range values {", "if len(v) == 0 {", "continue", "}", "if n < maxFormParamCount {", "}", "else{",
+       "call r.Form.Encode", "return", "}", "}", "if len(filtered) > 0 {", "if strings.HasSuffix(name, arraySuffix) {", "}",
+       "mapset params", "}", "}", "return"] := by decide
+
+/-- `ParseHeaders`: one value ⇒ string, several ⇒ list (`headerParams`) -/
+theorem tie_parseHeaders :
+    parseHeadersShape =
+      ["range header {", "if len(v) == 1 {", "mapset m", "}", "else{", "mapset m", "}", "}",
+       "call headerUnmarshaler.Unmarshal", "return"] := by decide
+
+/-- `implicitValueRequiredStruct` (`structRequired`): a field under another key, a field without options that is not a
+struct, a field that is neither optional nor defaulted, an `optional=!dep` field make the nested struct required -/
+theorem tie_structRequiredShape :
+    structRequiredShape =
+      ["call tp.NumField", "for i < numFields {", "call tp.Field", "if usingDifferentKeys(tag, childField) {", "return",
+       "}", "call parseKeyAndOptions", "if err != nil {", "return", "}", "if opts == nil {",
+       "if childField.Type.Kind() != reflect.Struct {", "return", "}", "call implicitValueRequiredStruct",
+       "if err != nil {", "return", "}", "else{", "if required {", "return", "}", "}", "}", "else{",
+       "if !opts.Optional && len(opts.Default) == 0 {", "return", "}", "else{",
+       "if len(opts.OptionalDep) > 0 && opts.OptionalDep[0] == notSymbol {", "return", "}", "}", "}", "}", "return"] := by
+  rfl
+
 end GoZero.C08.Tie
